@@ -294,6 +294,7 @@ def build(tier):
             'nano::write(stream, string_view) inside the parameter writers: two fields (length, chars) or failure (stub nv_write_name; the real function is verified in target write_string)',
             'write(string_view) precondition: the length fits the uint32 it is stored in',
             'x86-64 little endian; int = 32, long = 64 bits (type_facts.cpp)',
+            'size bounds that keep position arithmetic inside int64: stream length <= 2^46 bytes, element counts <= 2^40, allocations above 2^47 bytes throw',
         ],
         'trusted': [],
     }
